@@ -24,24 +24,36 @@ try:
         res["demo_on_repo_exit"] = d0.returncode
         tests = set()
         for f in res["files"]:
-            if "/core/parser/" in f or "/dialects/" in f:
-                tests |= {"test/core/parser", "test/dialects"}
-            if "/rules/" in f or "/utils/reflow/" in f or "/core/rules/" in f:
-                tests |= {"test/rules", "test/utils", "test/core/rules"}
-            if "/core/linter/" in f or "/cli/" in f or "/api/" in f or "/core/errors" in f:
-                tests |= {"test/core/linter", "test/cli", "test/api", "test/core/errors_test.py"}
+            base = os.path.basename(f)
+            m = re.match(r"dialect_([a-z0-9]+?)(_keywords)?\.py", base)
+            if "/dialects/" in f and m:
+                tests.add(f"test/dialects/dialects_test.py -k {m.group(1)}")
+            if "/core/parser/" in f:
+                tests |= {"test/core/parser", "test/dialects/dialects_test.py -k ansi"}
+            m = re.match(r"([A-Z]{2}\d\d)\.py", base)
+            if "/rules/" in f and m:
+                tests.add(f"test/rules/yaml_test_cases_test.py -k {m.group(1)}")
+            if "/utils/reflow/" in f:
+                tests |= {"test/utils/reflow", "test/rules/yaml_test_cases_test.py -k LT0"}
+            if "/core/rules/" in f:
+                tests |= {"test/core/rules", "test/rules/yaml_test_cases_test.py -k AL0"}
+            if "/core/linter/" in f or "/api/" in f or "/core/errors" in f:
+                tests |= {"test/core/linter", "test/api", "test/core/errors_test.py"}
+            if "/cli/" in f or "/core/linter/" in f:
+                tests.add("test/cli/commands_test.py")
             if "/templaters/" in f:
-                tests |= {"test/core/templaters", "test/core/linter", "test/api"}
+                tests |= {"test/core/templaters"}
             if "/core/config/" in f or "/helpers/" in f:
-                tests |= {"test/core/config", "test/core/helpers", "test/core/linter"}
-            if "/core/rules/" in f or "/core/linter/" in f or "/core/errors" in f:
-                tests |= {"test/rules/yaml_test_cases_test.py"} if "/core/rules/" in f else set()
+                tests |= {"test/core/config", "test/core/helpers"}
         tests = sorted(tests) or ["test/core", "test/api", "test/cli"]
-        t = sh(f"cd {WT} && PYTHONPATH={WT}/src {PY} -m pytest -q -p no:cacheprovider -n 6 --timeout=1800 " + " ".join(tests), timeout=7200)
-        tail = t.stdout.strip().splitlines()[-1] if t.stdout.strip() else ""
-        failed = [l for l in t.stdout.splitlines() if l.startswith("FAILED") or l.startswith("ERROR")]
+        failed, tails = [], []
+        for tcmd in tests:
+            t = sh(f"cd {WT} && PYTHONPATH={WT}/src {PY} -m pytest -q -p no:cacheprovider -n 4 --timeout=1800 {tcmd}", timeout=7200)
+            tails.append(t.stdout.strip().splitlines()[-1] if t.stdout.strip() else "no output")
+            failed += [l for l in t.stdout.splitlines() if l.startswith("FAILED") or l.startswith("ERROR")]
+        tail = " | ".join(tails)
         unexpected = [l for l in failed if not any(a in l for a in ALWAYS_FAIL)]
-        res["tests_run"] = " ".join(tests)
+        res["tests_run"] = "; ".join(tests)
         res["tests_summary"] = tail
         res["unexpected_test_failures"] = unexpected[:10]
         res["ok"] = bool(res["patch_applies"] and res["demo_with_patch_exit"] == 1 and res["demo_on_repo_exit"] == 0 and not unexpected and "passed" in tail)
